@@ -55,7 +55,7 @@ def run(ctx, res):
              'doc': [{'id': mapcase.EX + 'tm/T', 'src': 'S0', 'nonasserted': False, 'subj': {'k': 'templ', 'v': mapcase.EX + 'r/{id}', 'ck': 'iri', 'tt': ''}, 'sjoins': [], 'classes': [mapcase.EX + 'C'], 'sgraphs': [], 'poms': []}]}
     cases.append(empty)
     # a large result whose blank nodes each occur in two statements (above any plausible batch size of a loader)
-    n = ctx.scale(26000, 60000)
+    n = ctx.scale(51000, 90000)       # two statements per row: above 100 000 statements (a plausible batch size of a loader)
     EX = mapcase.EX
     def tm(k, v, ck='iri', tt=''):
         return {'k': k, 'v': v, 'ck': ck, 'tt': tt}
@@ -122,7 +122,8 @@ def run(ctx, res):
         view = o['rdflib_view']
         exp_triples = sorted(set(tuple(q[:3]) for q in exp))
         if sorted(set(map(tuple, view))) != exp_triples:
-            if named and 'rdflib-named-graphs-hidden' in known and all(tuple(t) in set(exp_triples) for t in view):
+            exp_set = set(exp_triples)
+            if named and 'rdflib-named-graphs-hidden' in known and all(tuple(t) in exp_set for t in view):
                 res.violations.append({'key': 'rdflib-named-graphs-hidden', 'what': 'recorded finding reproduced', 'replay': None})
             else:
                 res.violations.append({'key': None, 'sig': 'rdflib-view', 'what': 'a caller iterating the returned Graph sees %d statements, the set has %d: missing %r'
